@@ -5,6 +5,7 @@ import (
 	"errors"
 	"net"
 	"strconv"
+	"strings"
 
 	"github.com/pion/transport/v4"
 )
@@ -20,6 +21,37 @@ type TNet struct {
 var _ transport.Net = (*TNet)(nil)
 
 var errNotSupported = errors.New("sim: not supported")
+
+// Hosts is simnet's name service: host names an operator may put where an address is expected.
+var Hosts = map[string][]net.IP{
+	"relay.sim":  {net.IPv4(10, 9, 0, 1), net.ParseIP("fd00:9::1")},
+	"relay4.sim": {net.IPv4(10, 9, 0, 1)},
+	"localhost":  {net.IPv4(127, 0, 0, 1), net.ParseIP("::1")},
+}
+
+// splitHostPortNet resolves address for network: an IP literal, or a name from Hosts (the first
+// address of the network's family, as Go's resolver picks one for Listen and Dial).
+func splitHostPortNet(network, address string) (net.IP, int, error) {
+	ip, port, err := splitHostPort(address)
+	if err == nil {
+		return ip, port, nil
+	}
+	host, _, herr := net.SplitHostPort(address)
+	if herr != nil {
+		return nil, 0, err
+	}
+	for _, cand := range Hosts[host] {
+		v4 := cand.To4() != nil
+		if (strings.HasSuffix(network, "4") && !v4) || (strings.HasSuffix(network, "6") && v4) {
+			continue
+		}
+		_, port, _ = splitHostPort(net.JoinHostPort("0.0.0.0", address[strings.LastIndex(address, ":")+1:]))
+
+		return append(net.IP{}, cand...), port, nil
+	}
+
+	return nil, 0, err
+}
 
 func splitHostPort(address string) (net.IP, int, error) {
 	host, portStr, err := net.SplitHostPort(address)
@@ -43,7 +75,7 @@ func splitHostPort(address string) (net.IP, int, error) {
 
 // ListenPacket implements transport.Net.
 func (t *TNet) ListenPacket(network string, address string) (net.PacketConn, error) {
-	ip, port, err := splitHostPort(address)
+	ip, port, err := splitHostPortNet(network, address)
 	if err != nil {
 		return nil, err
 	}
@@ -107,7 +139,7 @@ func (t *TNet) ListenTCP(network string, laddr *net.TCPAddr) (transport.TCPListe
 
 // Dial implements transport.Net.
 func (t *TNet) Dial(network, address string) (net.Conn, error) {
-	ip, port, err := splitHostPort(address)
+	ip, port, err := splitHostPortNet(network, address)
 	if err != nil {
 		return nil, err
 	}
@@ -161,8 +193,8 @@ func (t *TNet) ResolveIPAddr(_, address string) (*net.IPAddr, error) {
 }
 
 // ResolveUDPAddr implements transport.Net.
-func (t *TNet) ResolveUDPAddr(_, address string) (*net.UDPAddr, error) {
-	ip, port, err := splitHostPort(address)
+func (t *TNet) ResolveUDPAddr(network, address string) (*net.UDPAddr, error) {
+	ip, port, err := splitHostPortNet(network, address)
 	if err != nil {
 		return nil, err
 	}
@@ -171,8 +203,8 @@ func (t *TNet) ResolveUDPAddr(_, address string) (*net.UDPAddr, error) {
 }
 
 // ResolveTCPAddr implements transport.Net.
-func (t *TNet) ResolveTCPAddr(_, address string) (*net.TCPAddr, error) {
-	ip, port, err := splitHostPort(address)
+func (t *TNet) ResolveTCPAddr(network, address string) (*net.TCPAddr, error) {
+	ip, port, err := splitHostPortNet(network, address)
 	if err != nil {
 		return nil, err
 	}
@@ -195,7 +227,7 @@ type dialer struct {
 }
 
 func (d dialer) Dial(network, address string) (net.Conn, error) {
-	ip, port, err := splitHostPort(address)
+	ip, port, err := splitHostPortNet(network, address)
 	if err != nil {
 		return nil, err
 	}
@@ -225,7 +257,7 @@ type listenConfig struct {
 }
 
 func (lc listenConfig) Listen(_ context.Context, network, address string) (net.Listener, error) {
-	ip, port, err := splitHostPort(address)
+	ip, port, err := splitHostPortNet(network, address)
 	if err != nil {
 		return nil, err
 	}
@@ -241,7 +273,7 @@ func (lc listenConfig) Listen(_ context.Context, network, address string) (net.L
 }
 
 func (lc listenConfig) ListenPacket(_ context.Context, network, address string) (net.PacketConn, error) {
-	ip, port, err := splitHostPort(address)
+	ip, port, err := splitHostPortNet(network, address)
 	if err != nil {
 		return nil, err
 	}
